@@ -68,6 +68,11 @@ def mk_shl(a, n):
         return const(0)
     if is_const(a):
         return const(a[1] << n)
+    if a[0] == "shl":
+        return mk_shl(a[1], a[2] + n)  # (x << a) << n
+    if a[0] == "join" and len(a[1]) <= 4 and all(x[0] in ("byte", "shl", "c") for x in a[1]):
+        # a shift distributes over a bit-disjoint union of bytes: ((b1 << 8) | b0) << 8 = (b1 << 16) | (b0 << 8)
+        return mk_join([mk_shl(x, n) for x in a[1]])
     return ("shl", a, n)
 
 
